@@ -3,7 +3,7 @@
 SPEC = {
     "level": "exploration",
     "stages": [{"name": "main", "harness": "C13_casts.cpp", "config": "san", "gen": True,
-                "deadline": {"quick": 600, "thorough": 2400}}],
+                "deadline": {"quick": 900, "thorough": 2400}}],
     "technique": "exhaustive evaluation of a finite class table generated from the headers' AST",
     "rule": ("K = every concrete class deriving from Tins::PDU + PDUCacher<X> for every cacheable X; T = every class with a pdu_flag "
              "(abstract ones included) + PDUCacher<X>; both tables are generated from clang's AST of a TU including every header "
@@ -13,14 +13,21 @@ SPEC = {
              "frame-control / descriptor-type byte, and EVERY T: find_pdu<T>, rfind_pdu<T> (const and non-const) on the head, "
              "tins_cast<T*>, tins_cast<const T*>, tins_cast<T>(ref) on the head; a non-null result must be dynamic_cast<T*> of a chain "
              "element (of the head for casts); an element whose exact class is T must be found (and returned when it is the head). "
+             "STATE SWEEPS (single objects, every plain T, same oracle): for every concrete class with a (buffer,size) constructor that "
+             "constructor itself on its default wire image (+64 zero bytes), on 128 zero bytes and on the harness' minimal image, with every "
+             "value of each of the first 8 (quick) / 32 (thorough) bytes and the grid byte0 (256) x byte1 (6 / 32 boundary values), accepted "
+             "buffers only; and a default object after one call of every public small-value setter of the generated setter table (bool, "
+             "integers, small_uint<N>, enums; inherited ones included), argument swept over the whole domain up to 8 (quick) / 16 (thorough) "
+             "bits, per-byte and single-bit boundary values above. "
              "Signatures: wrongtype:<search|cast>:<K>-as-<T> (a wrong flag table entry / override), notfound:<search>:<T>, and "
              "wrapper-alias:<search|cast>:<kind> for the one root cause 'PDUCacher<X> carries X's flag' (only when, after unwrapping "
              "wrapper(s), the object really is what was asked for). evaluations = (chain, T) pairs, each with all 7 helpers; "
              "distinct_nontrivial = (chain, T) pairs with chain length <= 2 where at least one helper returned an object."),
     "claim": ("All (K, T) pairs of the generated table and all chains of up to 2 (quick) / 3 (thorough) layers over K are evaluated with "
               "every look-up and cast helper; the table cannot miss a class present in the headers."),
-    "note": ("Trusted: clang's AST dump and dynamic_cast/RTTI as ground truth, UBSan vptr check as corroboration only. One object per "
-             "class (pdu_type/matches_flag are state-independent in every shipped class; factory-built Dot11/EAPOL objects are added). "
+    "note": ("Trusted: clang's AST dump and dynamic_cast/RTTI as ground truth, UBSan vptr check as corroboration only. Object states: default, "
+             "factory-built, own-constructor-from-swept-buffer, one-setter-call (distinct_state_identities = #classes shows that identity "
+             "does not depend on state); states needing two or more setter calls or bytes beyond the swept prefix are not enumerated. "
              "Not covered: user-defined PDU classes, PDUCacher<PDUCacher<X>>, find_pdu called with an explicit flag argument."),
     "assumptions": ["ground truth for 'really is a T' is dynamic_cast<T*> (RTTI of the build under test)",
                     "classes = what clang's AST shows for a TU including every header below include/tins with the baseline config.h",
